@@ -294,6 +294,12 @@ func (in *inst) accesses(nodes ...ast.Node) (out []access, extra bool) {
 // elemBase reports whether x is a slice (non-byte elements) or map valued expression that can be
 // evaluated a second time, ahead of the statement at pos, without changing behaviour.
 func (in *inst) elemBase(x ast.Expr, pos token.Pos) (ast.Expr, bool) {
+	return in.elemBaseB(x, pos, false)
+}
+
+// elemBaseB: bytesOK admits []byte too (used for whole-slice operations - copy, append, Put*, a
+// []byte handed to a call - not for single index expressions: every varint byte would be a step).
+func (in *inst) elemBaseB(x ast.Expr, pos token.Pos, bytesOK bool) (ast.Expr, bool) {
 	for {
 		if p, ok := x.(*ast.ParenExpr); ok {
 			x = p.X
@@ -318,7 +324,7 @@ func (in *inst) elemBase(x ast.Expr, pos token.Pos) (ast.Expr, bool) {
 	}
 	switch u := t.Underlying().(type) {
 	case *types.Slice:
-		if b, ok := u.Elem().Underlying().(*types.Basic); ok && (b.Kind() == types.Uint8 || b.Kind() == types.Byte) {
+		if b, ok := u.Elem().Underlying().(*types.Basic); ok && (b.Kind() == types.Uint8 || b.Kind() == types.Byte) && !bytesOK {
 			return nil, false
 		}
 	case *types.Map:
@@ -452,8 +458,10 @@ func (in *inst) accessesAt(pos token.Pos, nodes ...ast.Node) (out []access, extr
 	writes := map[ast.Expr]bool{}
 	elems := map[string]access{}
 	var elemOrder []string
-	addElem := func(x ast.Expr, kind byte) {
-		b, ok := in.elemBase(x, pos)
+	var addElemB func(x ast.Expr, kind byte, bytesOK bool)
+	addElem := func(x ast.Expr, kind byte) { addElemB(x, kind, false) }
+	addElemB = func(x ast.Expr, kind byte, bytesOK bool) {
+		b, ok := in.elemBaseB(x, pos, bytesOK)
 		if !ok {
 			return
 		}
@@ -558,6 +566,44 @@ func (in *inst) accessesAt(pos token.Pos, nodes ...ast.Node) (out []access, extr
 				if id, ok := f.X.(*ast.Ident); ok {
 					name = id.Name + "." + f.Sel.Name
 				}
+			}
+			// []byte arguments: whole-slice reads, or writes for the known destinations
+			isBytes := func(e ast.Expr) bool {
+				t := in.info.TypeOf(e)
+				if t == nil {
+					return false
+				}
+				sl, ok := t.Underlying().(*types.Slice)
+				if !ok {
+					return false
+				}
+				b, ok := sl.Elem().Underlying().(*types.Basic)
+				return ok && (b.Kind() == types.Uint8 || b.Kind() == types.Byte)
+			}
+			short := name
+			if i := strings.LastIndex(short, "."); i >= 0 {
+				short = short[i+1:]
+			}
+			if sel, ok := v.Fun.(*ast.SelectorExpr); ok && name == "" {
+				short = sel.Sel.Name
+			}
+			if sel, ok := v.Fun.(*ast.SelectorExpr); ok {
+				short = sel.Sel.Name
+			}
+			for ai, a := range v.Args {
+				if !isBytes(a) {
+					continue
+				}
+				kind := byte('r')
+				switch {
+				case ai == 0 && (short == "copy" || strings.HasPrefix(short, "Put") || short == "Read" || short == "ReadAt" || short == "ZSTDDecompress" || short == "ZSTDCompress" || strings.HasPrefix(short, "Append")):
+					kind = 'w'
+				case ai == 0 && short == "append":
+					kind = 'a'
+				case ai == 1 && (short == "ReadFull" || short == "DecodeAll" || short == "EncodeAll"):
+					kind = 'w'
+				}
+				addElemB(a, kind, true)
 			}
 			if len(v.Args) > 0 {
 				switch name {
